@@ -18,6 +18,9 @@ pub struct HistPlan {
     /// signatures this property owns; violations with other signatures belong to another
     /// property's check and only stop the history from being extended
     pub keep: Option<fn(&str) -> bool>,
+    /// run the workers from another build of the harness (feature variant), if set
+    pub exe: Option<String>,
+    pub timeout_s: u64,
 }
 
 pub fn normalise(s: &str) -> String {
@@ -59,7 +62,8 @@ pub struct HistStats {
 
 pub fn explore(report: &mut Report, plan: &HistPlan) -> HistStats {
     // history workers contend on kernel memory management (Tantivy writers); 8 is the sweet spot
-    let cfg = PoolCfg { kind: plan.worker_kind.into(), timeout: Duration::from_secs(120), workers: ncpu().min(8), envs: vec![] };
+    let envs: Vec<(String, String)> = plan.exe.iter().map(|e| ("MC_WORKER_EXE".to_string(), e.clone())).collect();
+    let cfg = PoolCfg { kind: plan.worker_kind.into(), timeout: Duration::from_secs(plan.timeout_s.max(120)), workers: ncpu().min(8), envs };
     let mut frontier: Vec<Vec<String>> = vec![vec![]];
     let mut stats = HistStats { cases: 0, redundant: 0, violating: 0, foreign: 0 };
     let mut digests: HashSet<String> = HashSet::new();
@@ -122,7 +126,12 @@ pub fn explore(report: &mut Report, plan: &HistPlan) -> HistStats {
                             stats.foreign += 1;
                         }
                         for vi in &viols {
-                            let sig = signature_of(vi);
+                            let mut sig = signature_of(vi);
+                            if let Some(exe) = &plan.exe {
+                                // violations seen only in another feature configuration of memvid-core
+                                let variant = if exe.contains("target-hnsw") { "hnsw_bench" } else if exe.contains("target-nolex") { "no-lex" } else { "variant" };
+                                sig = format!("{sig}:{variant}-build");
+                            }
                             if let Some(keep) = plan.keep {
                                 if !keep(&sig) {
                                     report.outcome("violation-owned-by-another-property");
